@@ -272,9 +272,32 @@ class MpJoin(strax.Plugin):
         return r
 
 
+@strax.takes_config(strax.Option("mpj_log", default="", track=False))
+class MpJMulti(strax.Plugin):
+    """Two outputs, inlined behind the join; every compute call leaves a line in the call log (one file, O_APPEND:
+    it is written from the pool worker processes)."""
+    provides = ("mpjx", "mpjy")
+    depends_on = ("mpjoin",)
+    dtype = dict(mpjx=DT, mpjy=DT)
+    data_kind = dict(mpjx="mpka", mpjy="mpky")
+    parallel = True
+    rechunk_on_save = immutabledict(mpjx=False, mpjy=False)
+
+    def compute(self, mpka, start, end):
+        if self.config["mpj_log"]:
+            import os
+
+            fd = os.open(self.config["mpj_log"], os.O_WRONLY | os.O_APPEND | os.O_CREAT)
+            os.write(fd, f"mpjmulti {start} {end} {len(mpka)}\n".encode())
+            os.close(fd)
+        x = mpka.copy()
+        x["v0"] = mpka["v0"] + 0
+        return dict(mpjx=x, mpjy=mpka[mpka["v0"] % 2 == 0])
+
+
 class MpJDown(strax.Plugin):
     provides = "mpjdown"
-    depends_on = ("mpjoin",)
+    depends_on = ("mpjx",)
     dtype = DT
     data_kind = "mpka"
     parallel = True
@@ -286,7 +309,7 @@ class MpJDown(strax.Plugin):
         return r
 
 
-JOIN = [MpJSrcA, MpJSrcB, MpJoin, MpJDown]
+JOIN = [MpJSrcA, MpJSrcB, MpJoin, MpJMulti, MpJDown]
 
 
 # ---------------------------------------------------------------- inlining that starts at a plugin WITH a dependency
